@@ -122,20 +122,33 @@ Lemma float_modulo_refuted :
   wf w_float_mod = true /\ static_flags w_float_mod = [TgFloatMod] /\ compile w_float_mod = None.
 Proof. vm_compute. repeat split. Qed.
 
-(* if a { return 1 } return 2  with a : i64 : the module does not validate *)
+(* if a { return 1 } return 2  with a : i64.  Finding F13h (fixed in /repo): the pinned compiler
+   emitted a bare 'if' on the i64 register, which does not validate; the fixed compiler (and
+   [Compile.ccond]) compares with zero first. *)
 Definition w_if64 :=
   mkf [TI I64] [] (TI I32)
       (BCons (SIf (EVar 0) (ret1 (ELit I32 1)) ElNone) (ret1 (ELit I32 2))).
-Lemma if_condition_not_i32_refuted :
-  wf w_if64 = true /\ static_flags w_if64 = [TgIfCond64] /\
-  option_map fst (run_raw w_if64 (ints [1])) = Some false.
+Definition w_if64_pinned : wfunc :=
+  {| w_params := [VTI W64]; w_locals := []; w_result := VTI W32;
+     w_body := [LGet 0; If None [IConst W32 1; Return] None; IConst W32 2; Return] |}.
+Lemma bare_if_on_i64_refuted :
+  wf w_if64 = true /\ static_flags w_if64 = [] /\
+  validate w_if64_pinned = false /\
+  wres_z (run_raw w_if64 (ints [5])) = Some (true, inl 1) /\
+  wres_z (run_raw w_if64 (ints [0])) = Some (true, inl 2).
 Proof. vm_compute. repeat split. Qed.
 
-(* a + 18446744073709551615  with a : u64 : strconv.ParseInt fails in the compiler *)
+(* a + 18446744073709551615  with a : u64.  Finding F13j (fixed in /repo): the pinned compiler
+   parsed every integer literal with strconv.ParseInt(…, 64), so this well-typed program was
+   accepted by the analyzer and then failed in compiler.Compile; the fixed compiler (and
+   [Compile.lit_code]) accepts u64 literals up to 2^64-1. *)
 Definition w_biglit :=
   mkf [TI U64] [] (TI U64) (ret1 (EArith AAdd (EVar 0) (ELit U64 18446744073709551615))).
-Lemma u64_literal_refuted :
-  wf w_biglit = true /\ static_flags w_biglit = [TgBigU64Lit] /\ compile w_biglit = None.
+Lemma u64_literal_fixed :
+  wf w_biglit = true /\ static_flags w_biglit = [] /\
+  dyn_flags fx w_biglit (ints [3]) = [] /\
+  spec_z w_biglit (ints [3]) = Some 2 /\
+  wres_z (run_raw w_biglit (ints [3])) = Some (true, inl 2).
 Proof. vm_compute. repeat split. Qed.
 
 (* i32(a + b)  with a = 127, b = 1 : i8 : spec wraps to -128, compiled 128 *)
